@@ -277,6 +277,13 @@ async function check (leaf, resps) {
     let ex
     try { ex = load(f.file, out.content) } catch (e) { v('content-does-not-load', 'load', String(e).slice(0, 160)); return res }
     judge(main, ex, f, { path: f.orig.path, path2: f.orig.path2, split: f.orig.split, shift: f.orig.shift, sites: f.sites, translate: true }, v, `file ${path.basename(f.file)} (${p.layout}${p.chained ? ', chained' : ''})`, res.notes)
+    // wrapping is idempotent and marks the handler
+    const handler = () => 'x'
+    const w1 = main.getPrepareStackTrace(handler)
+    if (main.getPrepareStackTrace(w1) !== w1) v('wrap-not-idempotent', 'wrap', 'getPrepareStackTrace(wrapped) returned a new wrapper')
+    if (!w1[main.kSymbolPrepareStackTrace]) v('wrap-not-marked', 'wrap', 'wrapped handler does not carry kSymbolPrepareStackTrace')
+    // the ORIGINAL-map lookup knows nothing about a path that is not on disk: identity, no throw
+    try { const r0 = main.getOriginalPathAndLineFromSourceMap(f.file, 3, 1); if (r0.path !== f.file || r0.line !== 3) v('unknown-file-changed', 'rewritten-not-on-disk', `getOriginalPathAndLineFromSourceMap(${f.file}, 3, 1) returned ${JSON.stringify(r0)}`) } catch (e) { v('lookup-threw', 'rewritten-not-on-disk', String(e.message).slice(0, 100)) }
   } else if (leaf.fam === 'history') {
     const config = cfgFor('c')
     const byVer = {}
